@@ -58,3 +58,15 @@ pub assume_specification [i64::checked_abs] (x: i64) -> (r: Option<i64>)
     ensures r == (if x == i64::MIN { None::<i64> } else if x < 0 { Some((-(x as int)) as i64) } else { Some(x) });
 pub assume_specification [i64::unsigned_abs] (x: i64) -> (r: u64)
     ensures r as int == (if x < 0 { -(x as int) } else { x as int });
+
+// lossless unsigned -> signed conversions of std (`T::from(x)`, `x.into()`) that vstd does not specify: the value is unchanged
+pub assume_specification [<i16 as core::convert::From<u8>>::from] (x: u8) -> (r: i16) ensures r as int == x as int;
+pub assume_specification [<i32 as core::convert::From<u8>>::from] (x: u8) -> (r: i32) ensures r as int == x as int;
+pub assume_specification [<i64 as core::convert::From<u8>>::from] (x: u8) -> (r: i64) ensures r as int == x as int;
+pub assume_specification [<i128 as core::convert::From<u8>>::from] (x: u8) -> (r: i128) ensures r as int == x as int;
+pub assume_specification [<i32 as core::convert::From<u16>>::from] (x: u16) -> (r: i32) ensures r as int == x as int;
+pub assume_specification [<i64 as core::convert::From<u16>>::from] (x: u16) -> (r: i64) ensures r as int == x as int;
+pub assume_specification [<i128 as core::convert::From<u16>>::from] (x: u16) -> (r: i128) ensures r as int == x as int;
+pub assume_specification [<i64 as core::convert::From<u32>>::from] (x: u32) -> (r: i64) ensures r as int == x as int;
+pub assume_specification [<i128 as core::convert::From<u32>>::from] (x: u32) -> (r: i128) ensures r as int == x as int;
+pub assume_specification [<i128 as core::convert::From<u64>>::from] (x: u64) -> (r: i128) ensures r as int == x as int;
